@@ -567,6 +567,13 @@ def _sides(e: ast.AST, L: str, R: str) -> List[Tuple[str, str]]:
     """Left-to-right list of (side, field) leaves of a +-expression."""
     if isinstance(e, ast.BinOp) and isinstance(e.op, ast.Add):
         return _sides(e.left, L, R) + _sides(e.right, L, R)
+    # a copy of the value is the same bytes/receipts: bytearray(x), list(x), bytes(x), x.copy(), x[:]
+    if isinstance(e, ast.Call) and isinstance(e.func, ast.Name) and e.func.id in ("bytearray", "list", "bytes", "tuple") and len(e.args) == 1 and not e.keywords:
+        return _sides(e.args[0], L, R)
+    if isinstance(e, ast.Call) and isinstance(e.func, ast.Attribute) and e.func.attr == "copy" and not e.args:
+        return _sides(e.func.value, L, R)
+    if isinstance(e, ast.Subscript) and isinstance(e.slice, ast.Slice) and e.slice.lower is None and e.slice.upper is None and e.slice.step is None:
+        return _sides(e.value, L, R)
     for s in (L, R):
         a = _attr_of(e, s)
         if a is not None:
@@ -584,6 +591,8 @@ def _mpu_pairing(prog: Program, ci: ClassInfo) -> List[Instance]:
                 continue
             if isinstance(n.func, ast.Attribute):
                 continue  # not a writer invocation
+            if call_name(n) == ci.name:
+                continue  # MPUChunk(self.nextPartId, ...): construction of a copy, nothing is written
             n_sites += 1
             st = enclosing_stmt(n)
             blk = _block_of(st, m.node)
@@ -1467,7 +1476,14 @@ def rule_rio_layout(prog: Program) -> List[Instance]:
                 if zipped is None:
                     out.append(Instance("R-GUARDSEQ", cid, INFO, "side-car files are not consumed through zip()", f.where(c), nontrivial=False))
                     continue
-                ok = all(isinstance(d, ast.Call) and call_name(d) == "len" and d.args and short(d.args[0]) == short(zipped) for d in defs)
+                def _len_carrier(e: ast.AST) -> ast.AST:
+                    # wrappers that keep the number of elements: map(f, X), list(X), tuple(X), reversed(X), sorted(X)
+                    while isinstance(e, ast.Call) and isinstance(e.func, ast.Name) and ((e.func.id == "map" and len(e.args) == 2) or (e.func.id in ("list", "tuple", "reversed", "sorted", "iter") and len(e.args) == 1)):
+                        e = e.args[-1]
+                    return e
+
+                zipped = _len_carrier(zipped)
+                ok = all(isinstance(d, ast.Call) and call_name(d) == "len" and d.args and short(_len_carrier(d.args[0])) == short(zipped) for d in defs)
                 out.append(Instance("R-GUARDSEQ", cid, OK if ok else BAD,
                                     f"_memfiles_ovr(len({short(zipped)})): as many side-car files as layers zipped with them" if ok else
                                     f"`{short(c)}` does not create len({short(zipped)}) files (count is `{short(defs[0])}`): zip() stops at the shorter sequence and the last layer(s) are silently not written", f.where(c)))
